@@ -273,6 +273,68 @@ fn close_with_iterator(seed: u64) -> Vec<Fail> {
     fails
 }
 
+/// close while a background task is in flight (parked in the middle of building a table), after
+/// nothing / a failed foreground write / a failed background write: the close must return once the
+/// task is allowed to finish, whatever errors were recorded meanwhile
+fn close_with_task_in_flight(seed: u64) -> Vec<Fail> {
+    let mut rng = Prng::new(seed);
+    let mut fails = vec![];
+    let fs = SimFs::new();
+    let mut cfg = Cfg::gen(&mut rng);
+    cfg.memtable = *rng.pick(&[256usize, 512, 1024]);
+    let db = match open(&cfg, &fs) {
+        Ok(d) => d,
+        Err(f) => return vec![f],
+    };
+    crate::sched::reset();
+    let point = *rng.pick(&["bg:building-table", "bg:manifest-write"]);
+    let gate = crate::sched::arm("bg", point, 1);
+    let mut i = 0u64;
+    while !gate.wait_parked(Duration::from_millis(1)) && i < 2000 {
+        let _ = db.put(WriteOptions::default(), format!("k{:05}", i).into_bytes(), vec![b'v'; 40]);
+        i += 1;
+    }
+    if !gate.wait_parked(Duration::from_secs(5)) {
+        gate.release();
+        crate::sched::reset();
+        return fails; // no task could be parked with this configuration
+    }
+    let mode = seed % 3;
+    let mut what = "no error";
+    if mode == 1 {
+        // the next filesystem call is the WAL append of this put (the background thread is parked)
+        fs.reset_calls();
+        fs.set_fault(Some(crate::simfs::FaultPlan { at: 0, sticky: false }));
+        let r = db.put(WriteOptions::default(), b"after".to_vec(), b"x".to_vec());
+        fs.set_fault(None);
+        if r.is_ok() && fs.faults_fired() > 0 {
+            fails.push(("c08:write-ok-although-the-wal-append-failed".into(), "a put returned Ok although its WAL append failed".into()));
+        }
+        what = "a foreground write failed in the WAL (sticky bad state recorded by the writer)";
+    } else if mode == 2 {
+        // everything the parked task does next fails
+        fs.reset_calls();
+        fs.set_fault(Some(crate::simfs::FaultPlan { at: 0, sticky: true }));
+        what = "every filesystem call of the parked task fails";
+    }
+    let closer = std::thread::spawn(move || drop(db));
+    std::thread::sleep(Duration::from_millis(rng.range(5, 60)));
+    gate.release();
+    let t0 = std::time::Instant::now();
+    while !closer.is_finished() && t0.elapsed() < Duration::from_secs(20) {
+        std::thread::sleep(Duration::from_millis(5));
+    }
+    if !closer.is_finished() {
+        fails.push(("c09:close-never-returns".into(), format!("closing the database while a background task was parked at {point} ({what}) did not return within 20 s after the task was released: the closing thread waits for background_compaction_scheduled to clear and was never woken")));
+        // the thread is leaked; the watchdog of the scenario runner takes care of the process
+    } else if closer.join().is_err() {
+        fails.push(("c09:panic-in-close".into(), format!("closing the database panicked ({what})")));
+    }
+    fs.set_fault(None);
+    crate::sched::reset();
+    fails
+}
+
 /// degenerate option values
 fn degenerate(seed: u64) -> Vec<Fail> {
     let fs = SimFs::new();
@@ -363,11 +425,12 @@ fn snapshots_threads(seed: u64) -> Vec<Fail> {
 }
 
 pub fn rule() -> &'static str {
-    "watchdog scenarios on the real database: every descriptor kind; sustained multi-threaded writes with 256-512 byte memtables (memtable-full waits, level-0 slowdown and stop) with a concurrent manual compaction, closed immediately afterwards; closing while an iterator is alive; degenerate option values (memtable 0/1/64, file size 0/1, block size 0/1); snapshots and iterators taken and released from several threads. A scenario that does not finish within its deadline is a hang; any panic of the compaction thread is recorded by the process-wide panic hook. Non-trivial = the scenario ran; distinct by (scenario, seed)."
+    "watchdog scenarios on the real database: every descriptor kind; sustained multi-threaded writes with 256-512 byte memtables (memtable-full waits, level-0 slowdown and stop) with a concurrent manual compaction, closed immediately afterwards; closing while an iterator is alive; closing while a background task is parked in the middle of a flush (scheduling hook) after no error, after a failed foreground WAL append, or with every further filesystem call of the task failing; degenerate option values (memtable 0/1/64, file size 0/1, block size 0/1); snapshots and iterators taken and released from several threads. A scenario that does not finish within its deadline is a hang; any panic of the compaction thread is recorded by the process-wide panic hook. Non-trivial = the scenario ran; distinct by (scenario, seed)."
 }
 
 pub fn run(tier: &str, seed: u64, replay: Option<&str>, shard: Option<ShardArgs>, drv_path: &str) -> Report {
     crate::lsm::install_panic_hook();
+    crate::sched::init();
     let _ = DRV_PATH.set(drv_path.to_string());
     let mut rep = Report::new("c09", rule());
     let thorough = tier == "thorough";
@@ -375,6 +438,7 @@ pub fn run(tier: &str, seed: u64, replay: Option<&str>, shard: Option<ShardArgs>
         ("descriptors", descriptors, if thorough { 40 } else { 8 }, 30),
         ("sustained", sustained, if thorough { 120 } else { 16 }, 120),
         ("close-with-iterator", close_with_iterator, if thorough { 10 } else { 3 }, 30),
+        ("close-with-task-in-flight", close_with_task_in_flight, if thorough { 90 } else { 15 }, 60),
         ("degenerate", degenerate, 7, 40),
         ("snapshots-threads", snapshots_threads, if thorough { 40 } else { 6 }, 90),
     ];
